@@ -589,6 +589,9 @@ package xmpp
 //@   callsite type:Negotiator#1
 //@     assert[C01,C02,C04] !sawFeatures(arg4) ==> forall k string :: !has(s.negotiated, k)
 //@     assert[C01,C02,C04] first ==> arg4 == nil
+// C12: after a restart nothing of the previous stream header but the addresses
+// is carried over (a header without id must not inherit the old one)
+//@     assert[C12] !first && newRW != nil ==> s.in.Info.ID == "" && s.out.Info.ID == "" && s.in.Info.XMLNS == "" && s.in.Info.Lang == ""
 //@     assert[C01,C02,C04] !first ==> arg4 == lastData
 //@     after: negErr = ret3 != nil
 //@     after: lastData = ret2
@@ -611,6 +614,7 @@ package xmpp
 //@     invariant[C01,C02,C04] first ==> data == nil
 //@     invariant[C01,C02,C04] !sawFeatures(data) ==> forall k string :: !has(s.negotiated, k)
 //@     invariant[C01,C02,C04] !first ==> data == lastData
+//@     invariant[C12] !first ==> cur(rw) == newRW
 //@     invariant[C01,C02,C04] !first && newRW == nil && inSet ==> has(s.negotiated, anyK)
 //@   loop 2
 //@     invariant[C01,C02,C04] s.state & state == state && s.features != nil && s.negotiated != nil
